@@ -3,6 +3,7 @@ on the REAL mulgrid code after every edit of (a) exhaustively enumerated short e
 geometries and (b) random long histories on geometries of up to ~300 columns (incl. the shipped g1..g7).
 
 Contracts (plain functions, counted separately):
+  contract_completes   the edit returns (no exception other than the documented NamingConventionError, no hang)
   contract_wf          wf(before) ==> wf(after)                     (the invariant, step form)
   contract_valid_mesh  ops that promise a valid mesh leave no (new) missing / extra connections, orphan
                        nodes, non-manifold edges                    (own edge bookkeeping)
@@ -811,17 +812,16 @@ def step(geo, op, before, base, hist, calls, rec):
     names_before = set(c.name for c in geo.columnlist)
     sig = signature(geo) if k == 'split' else None
     h = hist + [op]
+    rec.count('completes')
     try:
         ret, call = run_limited(lambda: apply_op(geo, op))
     except Timeout:
-        rec.count('exception')
         rec.fail('timeout', k, base, h, calls + [opstr(op)], 'no return within %d s' % OP_TIMEOUT)
         return None, False
     except mulgrids.NamingConventionError:
         rec.count('capacity-error')      # the documented, explicit answer to an exhausted name space (property C17): not a failure
         return None, False
     except Exception as e:
-        rec.count('exception')
         tb = traceback.extract_tb(sys.exc_info()[2])
         where = ['%s:%d %s' % (os.path.basename(f.filename), f.lineno, f.name) for f in tb if 'c10_geoedits' not in f.filename][-2:]
         site = [w.split(' ')[0] for w in where][-1:] or ['?']
@@ -1085,8 +1085,9 @@ def main():
                 base = ['refined', MIXED5, [['decompose-all'], ['refine', False, [0], []]]]
             tasks.append(('r', (base, rlen, seed * 104729 + i, maxcols, deadline, tmpdir)))
         # longest first: random histories on big geometries, then exhaustive sub-trees
-        order = ([i for i, t in enumerate(tasks) if t[1][0][0] == 'fileraw'] + [i for i, t in enumerate(tasks) if t[0] == 'r'] +
-                 [i for i, t in enumerate(tasks) if t[0] == 'x' and t[1][0][0] != 'fileraw'])
+        rest = [i for i, t in enumerate(tasks) if t[0] == 'x' and t[1][0][0] != 'fileraw']
+        random.Random(seed).shuffle(rest)      # so that a truncation by the time guard hits all three small geometries evenly
+        order = [i for i, t in enumerate(tasks) if t[1][0][0] == 'fileraw'] + [i for i, t in enumerate(tasks) if t[0] == 'r'] + rest
         results = {}
         with mp.Pool(min(16, os.cpu_count() or 4)) as pool:
             for i, rec in pool.imap_unordered(run_task, [(i, tasks[i]) for i in order], chunksize=1):
@@ -1115,7 +1116,7 @@ def main():
                         'histories_ending_in_an_ill_formed_state_not_extended': skipped,
                         'subtrees_truncated_by_time_budget': truncated, 'worker_cpu_seconds': round(cpu, 1),
                         'failure_classes(category op: count)': dict(sorted(classes.items()))})
-        contracts = ('wf', 'valid-mesh', 'check', 'specific', 'roundtrip', 'exception')
+        contracts = ('completes', 'wf', 'valid-mesh', 'check', 'specific', 'roundtrip')
         out = {'evaluations': sum(counts.get(c, 0) for c in contracts), 'distinct': histories, 'failures': kept, 'nfailures': sum(classes.values()),
                'samples': samples, 'seconds': time.time() - t0}
     finally:
